@@ -1,0 +1,61 @@
+//go:build verif
+
+package memory
+
+// Contracts for raw text-memory access (properties C14, C11, C02), checked by /verif/bin/govc.
+// textmem is the ghost byte map of the process image; perm the ghost page protections.
+
+//@ pure func page_start(a uintptr) uintptr = a &^ 4095
+//@ pure func page_end(a uintptr) uintptr = (a + 4095) &^ 4095
+//@ pure func addr_ok(addr uintptr, n int) bool = 0 <= n && n < 0x100000000 && addr < 0x7fffffff00000000
+
+//@ func PageStart
+//@   props C14
+//@   assigns nothing
+//@   ensures below: result <= addr && addr - result < 4096
+//@   ensures aligned: result & 4095 == 0
+//@   ensures spec: result == page_start(addr)
+
+// RawAccess is the unsafe SliceHeader idiom: the window [addr, addr+length) of raw memory.
+//@ trusted func RawAccess
+//@   props C14
+//@   pure
+//@   ensures window: result == mkslice(textref, addr, length, length)
+
+//@ func RawRead
+//@   props C14 C11 C02
+//@   requires range: addr_ok(addr, length)
+//@   assigns rw_rheld[addr(memoryAccessLock)]
+//@   fresh
+//@   ensures len: len(result) == length
+//@   ensures copy: forall i int :: 0 <= i && i < length ==> result[i] == textmem[addr + uintptr(i)]
+//@   ensures lock_released: !rw_rheld[addr(memoryAccessLock)]
+
+//@ func mProtectCrossPage
+//@   props C14 C11
+//@   requires range: addr_ok(addr, length)
+//@   requires keeps_exec: prot & 4 != 0
+//@   assigns perm
+//@   invariant aligned: p & 4095 == 0 && page_start(addr) <= p && p <= page_end(addr + uintptr(length)) && pageSize == 4096
+//@   invariant done: forall q uintptr :: perm[q] == ite(page_start(addr) <= q && q < p, prot, old(perm[q]))
+//@   decreases page_end(addr + uintptr(length)) - p
+//@   ensures ok: result == nil
+//@   ensures exact: forall q uintptr :: perm[q] == ite(page_start(addr) <= q && q < page_end(addr + uintptr(length)), prot, old(perm[q]))
+//@   ensures covered: forall q uintptr :: addr <= q && q < addr + uintptr(length) ==> perm[q] == prot
+
+//@ func errorDetail
+//@   props C14
+//@   assigns nothing
+//@   panics_only_if always: true
+
+//@ func WriteTo
+//@   props C14 C11 C02
+//@   requires range: addr_ok(addr, len(data))
+//@   requires data_is_ordinary_memory: arr(data) != textref
+//@   assigns textmem[addr : addr + uintptr(len(data))], perm, rw_wheld[addr(memoryAccessLock)]
+//@   ensures ok: result == nil
+//@   ensures written: forall i int :: 0 <= i && i < len(data) ==> textmem[addr + uintptr(i)] == data[i]
+//@   ensures pages_rx: forall q uintptr :: addr <= q && q < addr + uintptr(len(data)) ==> perm[q] == 5
+//@   ensures perm_frame: forall q uintptr :: q < page_start(addr) || q >= page_end(addr + uintptr(len(data))) ==> perm[q] == old(perm[q])
+//@   ensures nothing_left_writable: forall q uintptr :: perm[q] == 5 || perm[q] == old(perm[q])
+//@   ensures lock_released: !rw_wheld[addr(memoryAccessLock)]
